@@ -58,7 +58,9 @@ def handleConvert (j : Json) : Json :=
     | .other _ => .raisesParse
   let single := (decodeInputs j "single").bind List.head?
   let list := decodeInputs j "list"
-  let file := decodeInputs j "file"
+  let file := match (j.getObjValAs? String "file_content").toOption with
+    | some c => some ((readLines c.toList).map Input.str)
+    | none => decodeInputs j "file"
   let gen := decodeInputs j "gen"
   let genFn := (j.getObjValAs? Bool "gen_fn").toOption.getD false
   let verbose : Verbose := if (j.getObjValAs? Bool "verbose_none").toOption.getD false then .none_ else .level
@@ -89,7 +91,9 @@ def handleCli (j : Json) : Json :=
   let args : List Arg := match j.getObjVal? "args" with
     | .ok (Json.arr a) => a.toList.map (fun x => match x.getObjVal? "file" with
         | .ok (Json.arr ls) => Arg.file (ls.toList.map (fun l => match l with | Json.str s => s.toList | _ => []))
-        | _ => match x with | Json.str s => Arg.lit s.toList | _ => Arg.lit [])
+        | _ => match x.getObjValAs? String "content" with
+          | .ok c => Arg.file (splitLines c.toList)
+          | _ => match x with | Json.str s => Arg.lit s.toList | _ => Arg.lit [])
     | _ => []
   let convTbl : List (String × String) := match j.getObjVal? "conv" with
     | .ok (Json.obj kvs) => kvs.toList.filterMap (fun (k, v) => match v with | Json.str s => some (k, s) | _ => none)
